@@ -449,4 +449,6 @@ def run(chk):
     from . import c13
     c13.tag_overrides_rule(chk, P, "C14.R2:tag-overrides")
     c13.points_declined_rule(chk, P, "C14.R2:declined-only-when-empty")
+    c13.decline_conditions_rule(chk, P, "C14.R2:decline-conditions")
+    c13.metric_seq_flag_rule(chk, P, "C14.R2:metric-seq-flag")
     return chk
